@@ -65,7 +65,15 @@ def build(mw):
     def boom():
         raise ValueError('boom')
 
-    routes = [('/ok', ok), ('/small', small), ('/bin', binary), ('/ctx', ctx, render_basic), ('/redir', redir),
+    def return_big_http():
+        return BadRequest('large detail ' * 500)
+
+    def no_content_type():
+        r = Response('no content type')
+        del r.headers['Content-Type']
+        return r
+
+    routes = [('/return_big_http', return_big_http), ('/noct', no_content_type), ('/ok', ok), ('/small', small), ('/bin', binary), ('/ctx', ctx, render_basic), ('/redir', redir),
               ('/raise_http', raise_http), ('/return_http', return_http), ('/nb', nb), ('/boom', boom),
               GET('/getonly', ok)]
     return Application(routes, middlewares=[mw] if mw is not None else [])
